@@ -61,7 +61,8 @@ J05(o, P, D) ==
 RECURSIVE CfgAt(_, _)
 CfgAt(o, k) == IF k = 1 THEN o.cfg0
                ELSE LET c == CfgAt(o, k - 1) a == o.asks[k - 1] IN
-                    IF a.supplied THEN Upd(c, a.i, o.cfg[a.i]) ELSE c
+                    \* an answer that did not reach the store (a defect the checks must be able to report, not crash on) counts as value 2
+                    IF a.supplied THEN Upd(c, a.i, IF a.i \in DOMAIN o.cfg THEN o.cfg[a.i] ELSE 2) ELSE c
 
 ValInputReads(o, P) ==
   UNION {{x[1] : x \in {y \in Eval(P.body[l], 0, {}, o.cfg, o.vals, AllSpecs(P.cat), SeqToSet(o.forms)).rd : y[1] \in P.inputs}} : l \in DOMAIN o.vals}
